@@ -58,7 +58,7 @@ func (gw *eventBasedGateway) run(ctx context.Context, sender tracing.ISenderHand
 				terminationChannels := make(map[schema.IdRef]chan bool)
 				for _, sequenceFlow := range sequences {
 					if idPtr, present := sequenceFlow.Id(); present {
-						terminationChannels[*idPtr] = make(chan bool)
+						terminationChannels[*idPtr] = make(chan bool, 1)
 					} else {
 						err := errors.NotFoundError{
 							Expected: sequenceFlow,
@@ -85,7 +85,6 @@ func (gw *eventBasedGateway) run(ctx context.Context, sender tracing.ISenderHand
 								}
 								close(ch)
 							}
-							terminationChannels = make(map[schema.IdRef]chan bool)
 							return action
 						} else {
 							return completeAction{}
